@@ -145,6 +145,7 @@ type World struct {
 	lastProgress int
 	contRun      int // consecutive "continue" decisions of the running task
 	hot          bool // the pending scheduling point is an unguarded statement (YieldStmt)
+	numCPU       int  // the simulated machine's CPU count (0: not drawn yet)
 }
 
 // W is the world of the run in progress (nil outside Run).
@@ -778,4 +779,32 @@ func SpawnFromEvent(party, site string, fn func()) {
 		return
 	}
 	w.newTask(site, party, fn)
+}
+
+// NumCPU is the CPU count of the simulated machine: 1, 2, 4, 8 or 16, drawn from the tape the
+// first time a run asks (4 outside a run). Code that sizes a worker pool by runtime.NumCPU or
+// GOMAXPROCS gets that many workers whatever the host has.
+func NumCPU() int {
+	w := W
+	if w == nil || w.ended {
+		return 4
+	}
+	if w.numCPU == 0 {
+		w.numCPU = []int{1, 2, 4, 8, 16}[w.Tape.Choose(SGen, 5)]
+		Reach("runtime.NumCPU-asked")
+	}
+	return w.numCPU
+}
+
+// LiveTasks counts the tasks that have not ended.
+func LiveTasks() int {
+	n := 0
+	if W != nil {
+		for _, t := range W.tasks {
+			if t.state != tDone {
+				n++
+			}
+		}
+	}
+	return n
 }
